@@ -1,9 +1,7 @@
 package keeper
 
 import (
-	"encoding/binary"
 	"fmt"
-	"strings"
 
 	"github.com/tendermint/tendermint/libs/log"
 
@@ -107,20 +105,17 @@ func (k Keeper) IterateConsensusStates(
 
 	defer iterator.Close()
 	for ; iterator.Valid(); iterator.Next() {
-		key := iterator.Key()
-
-		keySplit := strings.Split(string(key), "/")
-		// consensus key is in the format "clients/<chainName>/consensusStates/<height>"
-		if len(keySplit) != 4 || keySplit[2] != string(host.KeyConsensusStatePrefix) {
+		// consensus key is in the format "clients/<chainName>/consensusStates/<height>",
+		// where <height> is 16 binary bytes that may contain '/'
+		chainName, path, ok := host.ParseFullClientKey(iterator.Key())
+		if !ok {
 			continue
 		}
-		chainName := keySplit[1]
-		//revinum := sdk.BigEndianToUint64(key[35:43])
-		//revihei := sdk.BigEndianToUint64(key[44:])
-		heightBytes := keySplit[3]
-		revisionUint64 := binary.BigEndian.Uint64([]byte(heightBytes[:8]))
-		heightUint64 := binary.BigEndian.Uint64([]byte(heightBytes[8:]))
-		height := types.MustParseHeight(fmt.Sprintf("%d-%d", revisionUint64, heightUint64))
+		revisionNumber, revisionHeight, ok := host.ParseConsensusStateKey(path)
+		if !ok {
+			continue
+		}
+		height := types.NewHeight(revisionNumber, revisionHeight)
 		consensusState := k.MustUnmarshalConsensusState(iterator.Value())
 
 		consensusStateWithHeight := types.NewConsensusStateWithHeight(height, consensusState)
@@ -247,15 +242,15 @@ func (k Keeper) IterateClients(
 
 	defer iterator.Close()
 	for ; iterator.Valid(); iterator.Next() {
-		keySplit := strings.Split(string(iterator.Key()), "/")
-		if keySplit[len(keySplit)-1] != host.KeyClientState {
+		// key is clients/{chainName}/clientState; any other path in the client store
+		// (binary heights included) is not a client state
+		chainName, path, ok := host.ParseFullClientKey(iterator.Key())
+		if !ok || string(path) != host.KeyClientState {
 			continue
 		}
 		clientState := k.MustUnmarshalClientState(iterator.Value())
 
-		// key is xibc/{clientid}/clientState
-		// Thus, keySplit[1] is chainName
-		if cb(keySplit[1], clientState) {
+		if cb(chainName, clientState) {
 			break
 		}
 	}
